@@ -54,6 +54,9 @@ type Program struct {
 	memFlow   *stateFlow
 	sqlTrans  map[string][]Trans
 	callSites map[*ssa.Function][]ssa.CallInstruction
+	sentinels map[*ssa.Global]bool
+	views     map[*ssa.Function]*viewInfo
+	viewOf    map[*ssa.Function]*ssa.Function
 }
 
 func loadProgram(root string) (*Program, error) {
